@@ -259,12 +259,17 @@ func (l *Leaser) SetClusterID(ctx context.Context, clusterID string) error {
 		return fmt.Errorf("cluster already initialized, cannot set cluster id")
 	}
 
-	// Set our cluster ID. Once set, it can't change.
-	if _, err := l.client.KV().Put(&api.KVPair{
-		Key:   l.ClusterIDKey(),
-		Value: []byte(clusterID),
+	// Set our cluster ID. Once set, it can't change: a check-and-set with index
+	// zero only succeeds if the key does not exist yet, so an ID that another
+	// node has written since the read above is never replaced.
+	if ok, _, err := l.client.KV().CAS(&api.KVPair{
+		Key:         l.ClusterIDKey(),
+		Value:       []byte(clusterID),
+		ModifyIndex: 0,
 	}, nil); err != nil {
 		return err
+	} else if !ok {
+		return fmt.Errorf("cluster already initialized, cannot set cluster id")
 	}
 	return nil
 }
